@@ -120,7 +120,14 @@ def run(O, P):
             if cout.get("outcome") == "ok":
                 jobs.append({"id": case["id"], "code": cin["code"], "file": cin["file"], "response": cout["result"]})
     # the hand-written inputs (BOM, CRLF, empty, shebang ...) first, then the not-modified results, then the rest, up to the tier's budget
-    jobs.sort(key=lambda j: (0 if j["id"].startswith(("c12odd", "c12ref")) else 1 if (j["response"].get("metrics") or {}).get("status") == "notmodified" else 2))
+    def prio(j):
+        met = j["response"].get("metrics") or {}
+        if j["id"].startswith(("c12odd", "c12ref")):
+            return 0
+        if met.get("status") == "modified" and not met.get("instrumentedPropagation"):
+            return 1          # modified, but nothing is counted (telemetry off): the status alone says what to hand back
+        return 2 if met.get("status") == "notmodified" else 3
+    jobs.sort(key=prio)
     jobs = jobs[:900 if O.tier == "quick" else 18000]
     if jobs:
         res = vlib.run_node("pkg_wrapper.js", jobs)
